@@ -3,56 +3,46 @@ package main
 import (
 	"fmt"
 
-	"github.com/freeconf/yang/node"
-	"github.com/freeconf/yang/nodeutil"
+	"github.com/freeconf/yang/meta"
 	"github.com/freeconf/yang/parser"
 )
 
-func try(name string, f func() string) {
-	defer func() {
-		if r := recover(); r != nil {
-			fmt.Printf("%-30s PANIC %v\n", name, r)
-		}
-	}()
-	fmt.Printf("%-30s %s\n", name, f())
-}
+const H = `namespace "urn:m"; prefix m; revision 0; `
 
 func main() {
-	y := `module k { yang-version 1.1; namespace "urn:k"; prefix k; revision 0; identity b; identity i1 { base b; }
-	leaf u { type union { type enumeration { enum red; enum blue; } type int32; } }
-	leaf-list ul { type union { type int32; type string; } }
-	leaf ue { type union { type empty; type string; } }
-	typedef t { type union { type int8; type string; } } leaf uu { type union { type boolean; type t; } }
-	leaf on { type empty; } leaf e2 { type empty; }
-	leaf ui { type union { type identityref { base b; } type int32; } }
-	leaf ub { type union { type bits { bit x; bit y; } type int32; } }
-	container c { leaf d { type int32; default 5; } container in { leaf d2 { type int32; default 6; } } } leaf td { type int32; default 7; }
-	}`
-	m, err := parser.LoadModuleFromString(nil, y)
-	if err != nil {
-		panic(err)
+	for name, y := range map[string]string{
+		"7 refine max":     `module m { ` + H + ` grouping g { list l { key k; max-elements 5; leaf k { type string; } } list l2 { key k; max-elements unbounded; leaf k { type string; } } leaf-list ll { type string; max-elements unbounded; } } container x { uses g { refine l { max-elements unbounded; } refine l2 { max-elements 3; } refine ll { max-elements 3; } } } }`,
+		"12 augment order": `module m { ` + H + ` container c { }  augment /c/d { leaf x { type string; } }  augment /c { container d { } } }`,
+		"13 rpc grouping":  `module m { ` + H + ` rpc r { grouping g { leaf a { type string; } } input { uses g; } } }`,
+		"13 rpc typedef":   `module m { ` + H + ` rpc r { typedef t { type int32; } input { leaf a { type t; } } } }`,
+		"14 refine {}":     `module m { ` + H + ` grouping g { leaf a { type string; } } container x { uses g { refine a { } } } }`,
+		"15 typedef rel":   `module m { ` + H + ` typedef r { type leafref { path "../name"; } }  container c { leaf name { type int32; } leaf ref { type r; } } }`,
+		"C02-5 mandatory":  `module m { ` + H + ` typedef d { type int32; default 5; } leaf mm { type d; mandatory true; } leaf-list ll { type d; min-elements 1; } leaf ok { type d; } }`,
+	} {
+		func() {
+			defer func() {
+				if r := recover(); r != nil {
+					fmt.Println(name, "PANIC", r)
+				}
+			}()
+			m, err := parser.LoadModuleFromString(nil, y)
+			fmt.Println(name, "->", err)
+			if err != nil {
+				return
+			}
+			switch name {
+			case "7 refine max":
+				x := meta.Find(m, "x").(*meta.Container)
+				for _, n := range []string{"l", "l2", "ll"} {
+					d := meta.Find(x, n).(meta.HasListDetails)
+					fmt.Println("   ", n, d.MaxElements(), d.Unbounded())
+				}
+			case "C02-5 mandatory":
+				for _, n := range []string{"mm", "ll", "ok"} {
+					l := meta.Find(m, n).(meta.Leafable)
+					fmt.Println("   ", n, l.HasDefault(), l.DefaultValue())
+				}
+			}
+		}()
 	}
-	rd := func(doc string, find string) string {
-		n, err := nodeutil.ReadJSON(doc)
-		if err != nil {
-			return err.Error()
-		}
-		s, err := node.NewBrowser(m, n).Root().Find(find)
-		if err != nil || s == nil {
-			return fmt.Sprint("find ", err)
-		}
-		j, err := nodeutil.WriteJSON(s)
-		x, err2 := nodeutil.WriteXML(s)
-		return fmt.Sprint(j, " ", err, " | ", x, " ", err2)
-	}
-	for _, d := range []string{`{"u":"red"}`, `{"u":5}`, `{"ul":[1,"a"]}`, `{"ue":"abc"}`, `{"ue":[null]}`, `{"uu":"abc"}`, `{"uu":true}`, `{"uu":5}`, `{"on":[null]}`, `{"ui":"i1"}`, `{"ui":7}`, `{"ub":"x y"}`, `{"ub":3}`} {
-		try(d, func() string { return rd(d, "") })
-	}
-	try("empty false map", func() string {
-		j, err := nodeutil.WriteJSON(node.NewBrowser(m, nodeutil.ReflectChild(map[string]interface{}{"on": false, "e2": true})).Root())
-		return fmt.Sprint(j, err)
-	})
-	try("defaults root", func() string { return rd(`{"c":{"in":{}}}`, "") })
-	try("defaults c", func() string { return rd(`{"c":{"in":{}}}`, "c") })
-	try("defaults c/in", func() string { return rd(`{"c":{"in":{}}}`, "c/in") })
 }
